@@ -900,12 +900,12 @@ def kind_of(label):
     return l
 
 
-def all_sites(rp, rng, func_per_slot=None, trfunc_per_site=None):
+def all_sites(rp, rng, func_per_slot=None, trfunc_per_site=None, trfunc_maxlen=3):
     out = []
     out += sites_let(rp, rng)
     out += sites_filter_split(rp, rng) + sites_filter_merge(rp, rng)
     out += sites_func(rp, rng, per_slot=func_per_slot)
-    out += sites_trfunc(rp, rng, per_site=trfunc_per_site)
+    out += sites_trfunc(rp, rng, per_site=trfunc_per_site, maxlen=trfunc_maxlen)
     out += sites_identity(rp, rng)
     out += sites_module(rp, rng)
     return out
